@@ -213,7 +213,14 @@ def run(ctx: common.Ctx):
         if bad:
             continue
         dexpr = pt.make_dict_of_named_arrays(direct)
-        texpr = pt.transform.deduplicate(pt.make_dict_of_named_arrays(traced))
+        try:
+            texpr = pt.transform.deduplicate(pt.make_dict_of_named_arrays(traced))
+        except Exception as e:   # noqa: BLE001
+            dis += 1
+            ctx.violation(f"calls:deduplicate-raises:{type(e).__name__}",
+                          f"case {ci} (seed {ctx.seed}): deduplicate of the graph with traced calls raised "
+                          f"{type(e).__name__}: {e}"[:400], {"case": ci, "seed": ctx.seed, "info": info})
+            continue
         try:
             ref = evaluate(dexpr, inp)
             got = evaluate(texpr, inp)
